@@ -248,7 +248,7 @@ def build():
     u.text('}')
 
     A = 'circuit-prover/src/air/alu_air.rs'
-    e = u.extract(A, r'Air<AB> for AluAir<AB::F, D>', 'eval', 'AluAir::eval[constraints slice]')
+    e = u.extract(A, r'Air<AB> for AluAir<AB::F, D>', 'eval', 'AluAir::eval[constraints]')
     e.drop_prefix_before('for lane in 0..self.lanes {',
                          'prefix emits the bus interactions (eval_alu_interactions, separate function), binds the row windows local/next/prep_local/prep_next and lane_width '
                          '(parameters here), debug-asserts the width and defines the ext_mul_lane closure (stub here)')
